@@ -9,6 +9,14 @@ the obligation as broken and searches the implementation for a failing input):
     Python subset: tuple/simple assignment, if/elif/else, raise, return, try/except-raise, ==/!=, len(), x[c], x[:c],
     x[c:], torch.Size([..]), torch.broadcast_shapes(a, b), shape + shape, range(n)[i], settings.debug.on().
 
+ C. OPERATOR-OPERAND OVERRIDES.  The branches of the class-level __add__ / _mul_matrix / add_diagonal / mul overrides that
+    take an OPERATOR second operand and decide by themselves whether the shapes fit (ConstantDiag + ConstantDiag,
+    ConstantDiag * ConstantDiag, Diag + Diag through Diag.add_diagonal, Dense + Dense, Zero + x, Zero * x) are translated
+    into Gallina functions of the two operator shapes (every tensor / operator expression is denoted by its shape;
+    attributes by the class invariants of ATTR_MODEL, whose defining `_size` / `_diag` / constructor sources are
+    template-checked).  FAST PATHS: every path of a binary entry point that returns `self` or the operand unchanged is
+    listed with the guards passed before it and the operand classes tested positively around it.
+
  B. GUARD TABLE.  For every class in linear_operator/operators/*.py and every public entry point, the method that
     runs is resolved through the MRO (C3 on the AST's base lists) and its body is abstractly interpreted:
     which recognised guards have been passed on every path when a `return` is reached, and how the path ends
@@ -485,7 +493,30 @@ def meet(cond, k):
     return None
 
 
-def flow(stmts, states, params, mname, exits, operand=None):
+def returned_unchanged(value, operand):
+    """'self' / 'operand' when the returned expression is the receiver / the operand parameter itself"""
+    if isinstance(value, ast.Name):
+        if value.id == "self":
+            return "self"
+        if operand is not None and value.id == operand:
+            return "operand"
+    return None
+
+
+def positive_isinstance(test, operand):
+    """class names K of a test  isinstance(<operand>, K) / isinstance(<operand>, (K1, K2))  (else None)"""
+    if operand is None or not isinstance(test, ast.Call) or dotted_name(test.func) != "isinstance" or len(test.args) != 2:
+        return None
+    if not (isinstance(test.args[0], ast.Name) and test.args[0].id == operand):
+        return None
+    t = test.args[1]
+    names = [dotted_name(x) for x in (t.elts if isinstance(t, ast.Tuple) else [t])]
+    if any(n is None for n in names):
+        return None
+    return "|".join(n.split(".")[-1] for n in names)
+
+
+def flow(stmts, states, params, mname, exits, operand=None, fast=None, stack=()):
     """abstract interpretation: states = set of (frozenset of guards established so far, operand-kind condition);
     returns the states falling through; appends (guards, kind, cond) to exits at every return"""
     for s in stmts:
@@ -495,10 +526,16 @@ def flow(stmts, states, params, mname, exits, operand=None):
             kind = classify_return(s.value, mname)
             for g, c in states:
                 exits.add((g, kind, c))
+            ru = returned_unchanged(s.value, operand)
+            if fast is not None and ru is not None:
+                for g, c in states:
+                    fast.add((g, ru, tuple(stack)))
             return set()
         if isinstance(s, ast.Raise):
             return set()
         if isinstance(s, ast.If):
+            pk = positive_isinstance(s.test, operand)
+            then_stack = stack + ((pk,) if pk else ())
             ok_ = operand_kind_of_test(s.test, operand)
             if ok_ is not None:
                 st_then = {(g, meet(c, ok_)) for g, c in states}
@@ -514,35 +551,35 @@ def flow(stmts, states, params, mname, exits, operand=None):
                 # conditional raise: acts as a guard on the other branch
                 g = guard_of_test(s.test)
                 if s.orelse:
-                    st_else = flow(s.orelse, st_else, params, mname, exits, operand)
+                    st_else = flow(s.orelse, st_else, params, mname, exits, operand, fast, stack)
                 states = {(frozenset(x | {g}), c) for x, c in st_else}
                 continue
-            st1 = flow(s.body, st_then, params, mname, exits, operand)
-            st2 = flow(s.orelse, st_else, params, mname, exits, operand) if s.orelse else st_else
+            st1 = flow(s.body, st_then, params, mname, exits, operand, fast, then_stack)
+            st2 = flow(s.orelse, st_else, params, mname, exits, operand, fast, stack) if s.orelse else st_else
             states = st1 | st2
             continue
         if isinstance(s, ast.Try):
             handlers_raise = all(always_raises(h.body) for h in s.handlers)
-            st = flow(s.body, set(states), params, mname, exits, operand)
+            st = flow(s.body, set(states), params, mname, exits, operand, fast, stack)
             if handlers_raise:
                 states = st
             else:
                 # a handler that swallows the exception: guards inside the try are void on the handler path
                 sth = set()
                 for h in s.handlers:
-                    sth |= flow(h.body, set(states), params, mname, exits, operand)
+                    sth |= flow(h.body, set(states), params, mname, exits, operand, fast, stack)
                 states = st | sth
             if s.finalbody:
-                states = flow(s.finalbody, states, params, mname, exits, operand)
+                states = flow(s.finalbody, states, params, mname, exits, operand, fast, stack)
             continue
         if isinstance(s, (ast.For, ast.While)):
-            st_body = flow(s.body, set(states), params, mname, exits, operand)
+            st_body = flow(s.body, set(states), params, mname, exits, operand, fast, stack)
             states = states | st_body
             if s.orelse:
-                states = flow(s.orelse, states, params, mname, exits, operand)
+                states = flow(s.orelse, states, params, mname, exits, operand, fast, stack)
             continue
         if isinstance(s, ast.With):
-            states = flow(s.body, states, params, mname, exits, operand)
+            states = flow(s.body, states, params, mname, exits, operand, fast, stack)
             continue
         gs = stmt_guards(s, params)
         if gs:
@@ -550,14 +587,14 @@ def flow(stmts, states, params, mname, exits, operand=None):
     return states
 
 
-def method_exits(fn):
+def method_exits(fn, fast=None):
     pos = [a.arg for a in fn.args.args if a.arg != "self"]
     params = pos + [a.arg for a in fn.args.kwonlyargs]
     if fn.args.vararg:
         params.append(fn.args.vararg.arg)
     operand = pos[0] if pos else None
     exits = set()
-    st = flow(fn.body, {(frozenset(), "any")}, set(params), fn.name, exits, operand)
+    st = flow(fn.body, {(frozenset(), "any")}, set(params), fn.name, exits, operand, fast)
     for g, c in st:                                   # falls off the end: returns None
         exits.add((g, ("compute",), c))
     return exits
@@ -659,6 +696,314 @@ def getitem_tail_check(classes):
     return True
 
 
+# ------------------------------------------------------------------------------------------------ part C
+
+# class invariants: attribute -> (type, denotation in terms of the operator's shape S).  They restate the `_size` of the
+# class (template-checked below) and are compared with the implementation on every grid case.
+ATTR_MODEL = {
+    "DiagLinearOperator": {"_diag": ("tensor", "(py_slice_to %s (-1)%%Z)")},
+    "ConstantDiagLinearOperator": {"diag_values": ("tensor", "(py_slice_to %s (-2)%%Z ++ [1])"),
+                                   "diag_shape": ("natres", "py_idx %s (-1)%%Z"),
+                                   "_diag": ("tensor", "(py_slice_to %s (-1)%%Z)")},
+    "DenseLinearOperator": {"tensor": ("tensor", "%s")},
+}
+SIZE_TEMPLATES = {
+    ("DiagLinearOperator", "_size"): "return torch.Size([*self._diag.shape, *self._diag.shape[-1:]])",
+    ("ConstantDiagLinearOperator", "_size"): "return torch.Size([*self.diag_values.shape[:-1], self.diag_shape, self.diag_shape])",
+    ("ConstantDiagLinearOperator", "_diag"): "return self.diag_values.expand(*self.diag_values.shape[:-1], self.diag_shape)",
+    ("DenseLinearOperator", "_size"): "return self.tensor.size()",
+    ("ZeroLinearOperator", "_size"): "return torch.Size(self.sizes)",
+}
+
+
+def body_without_doc(fn):
+    return [x for x in fn.body if not (isinstance(x, ast.Expr) and isinstance(x.value, ast.Constant))]
+
+
+def check_size_templates(classes):
+    for (c, m), want in SIZE_TEMPLATES.items():
+        if c not in classes or m not in classes[c].methods:
+            raise Untranslatable("%s.%s not found" % (c, m))
+        got = "\n".join(ast.unparse(x) for x in body_without_doc(classes[c].methods[m]))
+        if got != want:
+            raise Untranslatable("%s.%s is no longer `%s` (class invariant of the operator-operand model)" % (c, m, want))
+    t = ast.unparse(classes["ConstantDiagLinearOperator"].methods["__init__"])
+    if not re.search(r"if settings\.debug\.on\(\):\s+if not \(diag_values\.dim\(\) and diag_values\.size\(-1\) == 1\):\s+raise ValueError", t):
+        raise Untranslatable("ConstantDiagLinearOperator.__init__ no longer checks the trailing singleton of diag_values")
+    t = ast.unparse(classes["ZeroLinearOperator"].methods["__init__"])
+    if "self.sizes = list(sizes)" not in t:
+        raise Untranslatable("ZeroLinearOperator.__init__ no longer stores sizes")
+
+
+class OpTr(FnTr):
+    """FnTr + operator / tensor expressions, each denoted by its SHAPE.  self has shape `a`; the operand has shape `b`."""
+
+    def __init__(self, classes, memo, cls, operand, operand_cls, extra=None):
+        FnTr.__init__(self, {})
+        self.classes, self.memo, self.cls, self.operand, self.operand_cls = classes, memo, cls, operand, operand_cls
+        self.types = dict(extra or {})       # name -> (type, term)   for tensor / op / shape valued locals
+        self.vals = {}
+
+    def attr_model(self, owner_cls, attr):
+        for c in c3(self.classes, owner_cls, self.memo):
+            if c in ATTR_MODEL and attr in ATTR_MODEL[c]:
+                return ATTR_MODEL[c][attr]
+        return None
+
+    def ctor(self, name, args, kwargs, starred):
+        """shape of Constructor(args): (binds, term)"""
+        if name == "ConstantDiagLinearOperator":
+            allargs = list(args) + ([kwargs["diag_shape"]] if "diag_shape" in kwargs else [])
+            if len(allargs) != 2 or starred:
+                raise Untranslatable("ConstantDiagLinearOperator(...) call form")
+            b1, t1, ty1 = self.expr(allargs[0])
+            b2, t2, ty2 = self.expr(allargs[1])
+            if ty1 != "tensor" or ty2 != "nat":
+                raise Untranslatable("ConstantDiagLinearOperator(%s, %s)" % (ty1, ty2))
+            v, w = self.fresh(), self.fresh()
+            # constructor check under settings.debug: diag_values.dim() and diag_values.size(-1) == 1
+            return (b1 + b2 + [(v, "py_idx %s (-1)%%Z" % t1),
+                               (w, "if %s =? 1 then Ok (py_slice_to %s (-1)%%Z ++ [%s; %s]) else Raise" % (v, t1, t2, t2))], w)
+        if name == "DiagLinearOperator":
+            if len(args) != 1 or kwargs or starred:
+                raise Untranslatable("DiagLinearOperator(...) call form")
+            b1, t1, ty1 = self.expr(args[0])
+            if ty1 != "tensor":
+                raise Untranslatable("DiagLinearOperator(%s)" % ty1)
+            v = self.fresh()
+            return b1 + [(v, "py_idx %s (-1)%%Z" % t1)], "(%s ++ [%s])" % (t1, v)
+        if name == "DenseLinearOperator":
+            if len(args) != 1 or kwargs or starred:
+                raise Untranslatable("DenseLinearOperator(...) call form")
+            b1, t1, ty1 = self.expr(args[0])
+            if ty1 != "tensor":
+                raise Untranslatable("DenseLinearOperator(%s)" % ty1)
+            return b1, t1
+        if name == "ZeroLinearOperator":
+            if len(args) != 1 or not starred or set(kwargs) - {"dtype", "device"}:
+                raise Untranslatable("ZeroLinearOperator(...) call form")
+            b1, t1, ty1 = self.expr(args[0])
+            if ty1 != "shape":
+                raise Untranslatable("ZeroLinearOperator(*%s)" % ty1)
+            return b1, t1
+        raise Untranslatable("constructor %s" % name)
+
+    def expr(self, e):
+        # names bound to tensor / operator / shape values
+        if isinstance(e, ast.Name):
+            if e.id == "self":
+                return [], "a", "op"
+            if e.id == self.operand:
+                return [], "b", self.operand_cls and "op" or "tensor"
+            if e.id in self.vals:
+                ty, t = self.vals[e.id]
+                return [], t, ty
+            raise Untranslatable("unknown name %s" % e.id)
+        if isinstance(e, ast.UnaryOp) and isinstance(e.op, ast.Not):
+            b, t, ty = self.expr(e.operand)
+            if ty != "bool":
+                raise Untranslatable("not of a non-boolean")
+            return b, "negb (%s)" % t, "bool"
+        if isinstance(e, ast.Attribute):
+            if e.attr == "shape":
+                b, t, ty = self.expr(e.value)
+                if ty not in ("op", "tensor"):
+                    raise Untranslatable(".shape of %s" % ty)
+                return b, t, "shape"
+            b, t, ty = self.expr(e.value)
+            if ty != "op":
+                raise Untranslatable("attribute %s of %s" % (e.attr, ty))
+            owner = self.cls if (isinstance(e.value, ast.Name) and e.value.id == "self") else \
+                (self.operand_cls if (isinstance(e.value, ast.Name) and e.value.id == self.operand) else None)
+            am = self.attr_model(owner, e.attr) if owner else None
+            if am is None:
+                raise Untranslatable("attribute %s.%s has no class invariant" % (owner, e.attr))
+            aty, tmpl = am
+            if aty == "natres":
+                v = self.fresh()
+                return b + [(v, tmpl % t)], v, "nat"
+            return b, tmpl % t, aty
+        if isinstance(e, ast.BinOp) and isinstance(e.op, (ast.Add, ast.Mult)):
+            b1, t1, ty1 = self.expr(e.left)
+            b2, t2, ty2 = self.expr(e.right)
+            if ty1 == ty2 == "tensor":
+                v = self.fresh()
+                return b1 + b2 + [(v, "lift (torch_broadcast %s %s)" % (t1, t2))], v, "tensor"
+            if ty1 == ty2 == "shape" and isinstance(e.op, ast.Add):
+                return b1 + b2, "(%s ++ %s)" % (t1, t2), "shape"
+            raise Untranslatable("binary operator on %s, %s" % (ty1, ty2))
+        if isinstance(e, ast.Call):
+            f = e.func
+            kwargs = {k.arg: k.value for k in e.keywords if k.arg}
+            starred = any(isinstance(x, ast.Starred) for x in e.args)
+            args = [x.value if isinstance(x, ast.Starred) else x for x in e.args]
+            # x.expand(shape)
+            if isinstance(f, ast.Attribute) and f.attr == "expand" and len(args) == 1 and not kwargs and not starred:
+                b1, t1, ty1 = self.expr(f.value)
+                b2, t2, ty2 = self.expr(args[0])
+                if ty1 != "tensor" or ty2 != "shape":
+                    raise Untranslatable("expand of %s to %s" % (ty1, ty2))
+                v = self.fresh()
+                return b1 + b2 + [(v, "lift (torch_expand %s (zs_of %s))" % (t1, t2))], v, "tensor"
+            # self.add_diagonal(tensor)
+            if isinstance(f, ast.Attribute) and isinstance(f.value, ast.Name) and f.value.id == "self" and f.attr == "add_diagonal" \
+                    and len(args) == 1 and not kwargs and not starred:
+                b1, t1, ty1 = self.expr(args[0])
+                if ty1 != "tensor":
+                    raise Untranslatable("add_diagonal(%s)" % ty1)
+                v = self.fresh()
+                return b1 + [(v, "gen_diag_add_diagonal a %s" % t1)], v, "op"
+            # self.__class__(...)  -> the constructor of the defining class
+            if isinstance(f, ast.Attribute) and f.attr == "__class__" and isinstance(f.value, ast.Name) and f.value.id == "self":
+                b, t = self.ctor(self.cls, args, kwargs, starred)
+                return b, t, "op"
+            dotted = dotted_name(f)
+            if dotted == "torch.broadcast_shapes" and len(args) == 2 and not kwargs and not starred:
+                b1, t1, ty1 = self.expr(args[0])
+                b2, t2, ty2 = self.expr(args[1])
+                if ty1 != "shape" or ty2 != "shape":
+                    raise Untranslatable("broadcast_shapes of non-shapes")
+                v = self.fresh()
+                return b1 + b2 + [(v, "lift (torch_broadcast %s %s)" % (t1, t2))], v, "shape"
+            if dotted is not None and dotted.endswith("LinearOperator") and "." not in dotted:
+                b, t = self.ctor(dotted, args, kwargs, starred)
+                return b, t, "op"
+            raise Untranslatable("call %s" % (dotted or ast.dump(f)[:40]))
+        if isinstance(e, ast.Subscript):
+            b, t, ty = self.expr(e.value)
+            if ty != "shape":
+                raise Untranslatable("subscript of a non-shape")
+            k = self.const_int(e.slice)
+            if k is None:
+                raise Untranslatable("non-constant index")
+            v = self.fresh()
+            return b + [(v, "py_idx %s %s" % (t, self.zlit(k)))], v, "nat"
+        if isinstance(e, ast.Compare) and len(e.ops) == 1 and isinstance(e.ops[0], (ast.Eq, ast.NotEq)):
+            b1, t1, ty1 = self.expr(e.left)
+            b2, t2, ty2 = self.expr(e.comparators[0])
+            if not (ty1 == ty2 == "nat"):
+                raise Untranslatable("comparison of %s and %s" % (ty1, ty2))
+            c = "(%s =? %s)" % (t1, t2)
+            if isinstance(e.ops[0], ast.NotEq):
+                c = "negb %s" % c
+            return b1 + b2, c, "bool"
+        raise Untranslatable("expression %s" % ast.dump(e)[:60])
+
+    def stmts(self, ss, k):
+        # local assignment of tensor / shape / operator values: keep the denotation (no Gallina `let` needed for terms)
+        if ss and isinstance(ss[0], ast.Assign) and len(ss[0].targets) == 1 and isinstance(ss[0].targets[0], ast.Name):
+            b, t, ty = self.expr(ss[0].value)
+            self.vals[ss[0].targets[0].id] = (ty, t)
+            return self.wrap(b, self.stmts(ss[1:], k))
+        if ss and isinstance(ss[0], ast.Return) and ss[0].value is not None:
+            b, t, ty = self.expr(ss[0].value)
+            if ty != "op":
+                raise Untranslatable("returns a %s, not an operator" % ty)
+            return self.wrap(b, "Ok %s" % t)
+        return FnTr.stmts(self, ss, k)
+
+
+def isinstance_branch(fn, operand, cls_name):
+    """body of the top-level  `if isinstance(<operand>, <cls_name>):`  statement of fn"""
+    for st in body_without_doc(fn):
+        if isinstance(st, ast.If) and ast.unparse(st.test) == "isinstance(%s, %s)" % (operand, cls_name):
+            return st.body
+    raise Untranslatable("%s: no `if isinstance(%s, %s)` branch" % (fn.name, operand, cls_name))
+
+
+def inheritors_keep_ctor(classes, memo, cls, method):
+    """classes inheriting cls.<method> (which calls self.__class__(...)) must keep cls's constructor"""
+    for c in classes:
+        if c == cls or not is_lo_class(classes, c, memo):
+            continue
+        mro = c3(classes, c, memo)
+        if cls in mro:
+            i = resolve(classes, mro, method)
+            if i is not None and mro[i] == cls and "__init__" in classes[c].methods:
+                raise Untranslatable("%s inherits %s.%s (self.__class__(...)) with its own constructor" % (c, cls, method))
+
+
+def translate_operator_overrides(classes, memo):
+    check_size_templates(classes)
+    out = []
+
+    def need(c, m):
+        if c not in classes or m not in classes[c].methods:
+            raise Untranslatable("%s.%s not found" % (c, m))
+        return classes[c].methods[m]
+
+    def operand_of(fn):
+        pos = [a.arg for a in fn.args.args if a.arg != "self"]
+        if not pos:
+            raise Untranslatable("%s has no operand" % fn.name)
+        return pos[0]
+
+    # DiagLinearOperator.add_diagonal(diag: Tensor)            (must come first: Diag.__add__ calls it)
+    fn = need("DiagLinearOperator", "add_diagonal")
+    for c in classes:      # every diagonal class runs THIS add_diagonal
+        if is_lo_class(classes, c, memo) and "DiagLinearOperator" in c3(classes, c, memo):
+            mro = c3(classes, c, memo)
+            if mro[resolve(classes, mro, "add_diagonal")] != "DiagLinearOperator":
+                raise Untranslatable("%s overrides add_diagonal" % c)
+    tr = OpTr(classes, memo, "DiagLinearOperator", operand_of(fn), None)
+    out.append("Definition gen_diag_add_diagonal (a b : shape) : res shape :=\n%s.\n" % tr.stmts(body_without_doc(fn), None))
+
+    # DiagLinearOperator.__add__, DiagLinearOperator operand
+    fn = need("DiagLinearOperator", "__add__")
+    tr = OpTr(classes, memo, "DiagLinearOperator", operand_of(fn), "DiagLinearOperator")
+    out.append("Definition gen_diag_add (a b : shape) : res shape :=\n%s.\n"
+               % tr.stmts(isinstance_branch(fn, operand_of(fn), "DiagLinearOperator"), None))
+
+    # ConstantDiagLinearOperator.__add__, ConstantDiagLinearOperator operand
+    fn = need("ConstantDiagLinearOperator", "__add__")
+    tr = OpTr(classes, memo, "ConstantDiagLinearOperator", operand_of(fn), "ConstantDiagLinearOperator")
+    out.append("Definition gen_constdiag_add (a b : shape) : res shape :=\n%s.\n"
+               % tr.stmts(isinstance_branch(fn, operand_of(fn), "ConstantDiagLinearOperator"), None))
+
+    # ConstantDiagLinearOperator._mul_matrix, ConstantDiagLinearOperator operand
+    fn = need("ConstantDiagLinearOperator", "_mul_matrix")
+    inheritors_keep_ctor(classes, memo, "ConstantDiagLinearOperator", "_mul_matrix")
+    tr = OpTr(classes, memo, "ConstantDiagLinearOperator", operand_of(fn), "ConstantDiagLinearOperator")
+    out.append("Definition gen_constdiag_mul_matrix (a b : shape) : res shape :=\n%s.\n"
+               % tr.stmts(isinstance_branch(fn, operand_of(fn), "ConstantDiagLinearOperator"), None))
+
+    # DenseLinearOperator.__add__, DenseLinearOperator operand
+    fn = need("DenseLinearOperator", "__add__")
+    tr = OpTr(classes, memo, "DenseLinearOperator", operand_of(fn), "DenseLinearOperator")
+    out.append("Definition gen_dense_add (a b : shape) : res shape :=\n%s.\n"
+               % tr.stmts(isinstance_branch(fn, operand_of(fn), "DenseLinearOperator"), None))
+
+    # ZeroLinearOperator.__add__ / mul, any operator operand
+    fn = need("ZeroLinearOperator", "__add__")
+    tr = OpTr(classes, memo, "ZeroLinearOperator", operand_of(fn), "LinearOperator")
+    out.append("Definition gen_zero_add (a b : shape) : res shape :=\n%s.\n" % tr.stmts(body_without_doc(fn), None))
+    fn = need("ZeroLinearOperator", "mul")
+    inheritors_keep_ctor(classes, memo, "ZeroLinearOperator", "mul")
+    tr = OpTr(classes, memo, "ZeroLinearOperator", operand_of(fn), "LinearOperator")
+    out.append("Definition gen_zero_mul (a b : shape) : res shape :=\n%s.\n" % tr.stmts(body_without_doc(fn), None))
+    return "\n".join(out)
+
+
+FAST_ENTRIES = ("matmul", "rmatmul", "__add__", "__sub__", "mul", "add_diagonal")
+
+
+def fast_paths(classes, memo):
+    """(defining class, entry, 'self'|'operand', operand classes tested positively around the return, guards passed)"""
+    out = []
+    for cname in sorted(classes):
+        if not is_lo_class(classes, cname, memo):
+            continue
+        for mname in FAST_ENTRIES:
+            if mname not in classes[cname].methods:
+                continue
+            fn = classes[cname].methods[mname]
+            fast = set()
+            method_exits(fn, fast)
+            for g, kind, stack in sorted(fast, key=lambda x: (x[1], x[2], sorted(x[0]))):
+                out.append((cname, ENTRY_METHOD[mname], kind, list(stack), sorted(g)))
+    return out
+
+
 COND = {"any": "OAny", "tensor": "OTensor", "nontensor": "ONonTensor"}
 
 
@@ -687,7 +1032,9 @@ def translate(repo):
     out = ["(* GENERATED by harness/c19_tr.py from %s — do not edit *)" % "linear_operator/{utils/broadcasting.py,utils/getitem.py,operators/*.py}",
            "From Coq Require Import String.", "From Coq Require Import List ZArith Bool Arith.", "Import ListNotations.",
            "Require Import C19.Model.", "Open Scope nat_scope.", "",
-           translate_matmul_broadcast_shape(repo), translate_getitem_int_branch(repo), ""]
+           translate_matmul_broadcast_shape(repo), translate_getitem_int_branch(repo), "",
+           "(* operator-operand overrides: every tensor / operator expression is denoted by its shape; a = self.shape, b = operand shape *)",
+           translate_operator_overrides(classes, memo), ""]
     lines = []
     for c, e, d, ex in rows:
         xs = "; ".join("X [%s] %s %s" % ("; ".join(g), kind_lit(k), COND[c]) for g, k, c in ex)
@@ -699,7 +1046,20 @@ def translate(repo):
     out.append("(* class, class whose _check_args runs, __init__ reaches LinearOperator.__init__, _check_size *)")
     out.append("Definition ctor_table : list (string * string * bool * bool) := [\n%s\n]." % ";\n".join(cl))
     out.append("")
-    meta = {"classes": sorted({r[0] for r in rows}),
+    fps = fast_paths(classes, memo)
+    fl = ["  FP %s %s %s [%s] [%s]" % (coq_str(d), ent, "RetSelf" if kind == "self" else "RetOperand",
+                                        "; ".join(coq_str(x) for x in st), "; ".join(g))
+          for d, ent, kind, st, g in fps]
+    out.append("(* FAST PATHS: paths of the binary entry points that return self / the operand unchanged: defining class, entry,")
+    out.append("   what is returned, operand classes tested positively around the return, guards passed before it *)")
+    out.append("Definition fastpaths : list fastpath := [\n%s\n]." % ";\n".join(fl))
+    out.append("")
+    mro_lines = ["  (%s, [%s])" % (coq_str(c), "; ".join(coq_str(x) for x in c3(classes, c, memo) if x in classes))
+                 for c in sorted(classes) if is_lo_class(classes, c, memo)]
+    out.append("(* method resolution order (C3 on the AST) of every operator class *)")
+    out.append("Definition mro_table : list (string * list string) := [\n%s\n]." % ";\n".join(mro_lines))
+    out.append("")
+    meta = {"classes": sorted({r[0] for r in rows}), "fastpaths": [list(x) for x in fps],
             "rows": [{"cls": c, "entry": e, "def": d, "exits": [[g, list(k), c] for g, k, c in ex]} for c, e, d, ex in rows],
             "ctors": [list(x) for x in ctors]}
     return "\n".join(out) + "\n", meta
